@@ -312,7 +312,7 @@ func genHistory(r *hx.Rand, name int, n int, nilShare bool) []opIn {
 }
 
 func gen(r *hx.Rand, tier string) []json.RawMessage {
-	n := 1000
+	n := 700
 	if tier == "thorough" {
 		n = 12000
 	}
